@@ -160,6 +160,17 @@ Section Matcher.
       exists st' o, spec_handle d st u = (st', o)
                     /\ spec_run d st' c = ([], fires_at_last v (length c)).
 
+  (* No matcher can satisfy both clauses as the property text words them: with  a u c -> 1  and  c -> 2
+     bound and u beginning no bound chord, the answers o1 o2 o3 to the keys a u c typed from idle would
+     have to be (nothing, nothing, 1) by "a bound chord fires exactly at its last key" and end in 2 by
+     "the chord typed immediately after the unbound key u fires".  Independent of any implementation. *)
+  Lemma clauses_incompatible (v1 v2 : V) (o1 o2 o3 : option V) :
+    v1 <> v2 ->
+    [o1; o2; o3] = fires_at_last v1 3 ->        (* clause A for the chord a u c *)
+    [o3] = fires_at_last v2 1 ->                (* clause B for the chord c typed right after u *)
+    False.
+  Proof. unfold fires_at_last. cbn. intros Hne HA HB. injection HA as _ _ H3. injection HB as H3'. congruence. Qed.
+
   (* the pending keys are always empty, a proper prefix of a bound chord, or one rejected key *)
 
   Lemma spec_handle_pending (d : dict) st k :
